@@ -942,26 +942,18 @@ func (f *Field) ClearBit(rowID, colID uint64) (changed bool, err error) {
 	if len(f.viewMap) == 1 { // assuming no time views
 		return changed, nil
 	}
-	lastViewNameSize := 0
-	level := 0
-	skipAbove := maxInt
+	// Clear the bit in every time view. (Skipping the finer views below a
+	// coarser view that did not hold the bit is not sound here: views of
+	// different quanta and of sibling periods are interleaved in this order,
+	// and a quantum need not contain the coarser units at all.)
 	for _, view := range f.allTimeViewsSortedByQuantum() {
-		if lastViewNameSize < len(view.name) {
-			level++
-		} else if lastViewNameSize > len(view.name) {
-			level--
+		v, err := view.clearBit(rowID, colID)
+		if err != nil {
+			return changed, errors.Wrapf(err, "clearing on view %s", view.name)
 		}
-		if level < skipAbove {
-			if changed, err = view.clearBit(rowID, colID); err != nil {
-				return changed, errors.Wrapf(err, "clearing on view %s", view.name)
-			}
-			if !changed {
-				skipAbove = level + 1
-			} else {
-				skipAbove = maxInt
-			}
+		if v {
+			changed = true
 		}
-		lastViewNameSize = len(view.name)
 	}
 
 	return changed, nil
@@ -990,6 +982,9 @@ func (f *Field) allTimeViewsSortedByQuantum() (me []*view) {
 		}
 	}
 	me = me[:i]
+	if len(me) == 0 {
+		return me
+	}
 	year := strings.Index(me[0].name, "_") + 4
 	month := year + 2
 	day := month + 2
